@@ -155,3 +155,14 @@ def jprofile(cands, ballots):
             jb["s"] = {c: fs(Fraction(v)) for c, v in s.items()}
         out.append(jb)
     return {"candidates": list(cands), "ballots": out}
+
+
+def profile_json(profile):
+    """votekit profile object -> JSON profile (ties kept, contents merged, sorted): input for ref/scores.py"""
+    out = []
+    for (r, s), w in sorted(pmap(profile).items()):
+        jb = {"r": [list(x) for x in r] if r else None, "w": fs(w)}
+        if s:
+            jb["s"] = {c: fs(v) for c, v in s}
+        out.append(jb)
+    return {"candidates": sorted(profile.candidates), "ballots": out}
